@@ -1174,26 +1174,26 @@ Proof.
   intros Hpinv. pose proof Hpinv as (Hi & Hok). unfold parse_next.
   pose proof (next_fuel_val p Hi) as HFv. set (F := next_fuel p) in *.
   destruct (pst p) as [|s rest] eqn:Hs; [discriminate Hok|].
-  cbv zeta. change (prevend (set_err p false)) with (prevend p).
+  cbv zeta. change (prevend (set_buf (set_err p false) [])) with (prevend p).
   destruct (prevend p) eqn:Epe.
   - (* the pending '}' of the previous unit *)
     cbn [pbind].
-    set (p1 := set_prevend (set_tok (set_err p false) TRightBrace [125]) false).
+    set (p1 := set_prevend (set_tok (set_buf (set_err p false) []) TRightBrace [125]) false).
     assert (He1 : entry_ok p1).
     { split; [exact Hi|]. split; [split; discriminate|discriminate]. }
     change (pst p1) with (pst p). rewrite Hs.
     destruct (dispatch_spec F p1 s rest He1) as (g & p' & Hl & Ho).
-    + unfold rem in *. cbn [p1 set_prevend set_tok set_err pl]. lia.
+    + unfold rem in *. cbn [p1 set_prevend set_tok set_err set_buf pl]. lia.
     + exact Hs.
     + change (pst p1) with (pst p). rewrite Hs. exact Hok.
     + discriminate.
     + exists g, p'. split; [exact Hl|].
       apply (next_finish p p1); try reflexivity; try assumption. left. split; [exact Epe|reflexivity].
   - cbn [set_err prevend].
-    assert (Hi0 : linv (set_err p false)) by exact Hi.
-    assert (HF0 : rem (set_err p false) < Z.of_nat F) by (unfold rem in *; cbn [set_err pl]; lia).
+    assert (Hi0 : linv (set_buf (set_err p false) [])) by exact Hi.
+    assert (HF0 : rem (set_buf (set_err p false) []) < Z.of_nat F) by (unfold rem in *; cbn [set_err set_buf pl]; lia).
     pop_tok true Hpop Hi0 HF0. rewrite Hpop. cbn [pbind fst snd].
-    set (p1 := set_tok (relex (set_err p false) z ws cm) t d).
+    set (p1 := set_tok (relex (set_buf (set_err p false) []) z ws cm) t d).
     assert (He1 : entry_ok p1).
     { split; [exact Hz|]. split; [eapply tok_fact_tokd; exact Hfact|].
       intros Hx. cbn [p1 set_tok ptt] in Hx. subst t. destruct Hfact as [(_ & Hr & _)|(He & _)]; [|discriminate].
@@ -1213,11 +1213,11 @@ Proof.
         destruct Hcase as [(Hsq & -> & ->)|(Hsq & Hne & Hokr & Hg)].
         - rewrite Hsq, Hs. split; [split; [exact Hz|exact Hok]|]. split; [exact Hb|]. split; [exact Hsty|]. split; [exact Hp|].
           split.
-          + destruct (Z.eq_dec (lpos z) (lpos (pl p))) as [E|E]; [right|left; cbn [set_err pl] in Hp; lia].
+          + destruct (Z.eq_dec (lpos z) (lpos (pl p))) as [E|E]; [right|left; cbn [set_err set_buf pl] in Hp; lia].
             unfold terminal, rem. rewrite Hpl, Hsq, Hs, E. repeat split; try assumption; lia.
           + intros _. cbn [stack_rel]. auto.
         - rewrite Hsq, Hs. split; [split; [exact Hz|exact Hokr]|]. split; [exact Hb|]. split; [exact Hsty|]. split; [exact Hp|].
-          split; [left; rewrite len_cons; cbn [set_err pl] in Hp; lia|].
+          split; [left; rewrite len_cons; cbn [set_err set_buf pl] in Hp; lia|].
           intros _. destruct Hg as [(-> & Hk)|(-> & ->)]; cbn [stack_rel]; [exists s; auto|reflexivity]. }
       destruct (stack_ok_cons _ _ Hok) as [(Hr & Hbk)|(Hne & Hpk & Hokr)].
       * destruct s; try discriminate Hbk; rewrite Hd; do 2 eexists; (split; [reflexivity|]);
@@ -1225,12 +1225,12 @@ Proof.
       * destruct s; try discriminate Hpk; rewrite Hd; do 2 eexists; (split; [reflexivity|]);
           (apply Hcommon; [reflexivity|reflexivity|reflexivity|exact Epe|right; (split; [reflexivity|]); (split; [exact Hne|]); (split; [exact Hokr|]); auto]).
     + destruct (dispatch_spec F p1 s rest He1) as (g & p' & Hl & Ho).
-      * unfold rem in *. cbn [p1 set_tok relex pl set_err] in *. rewrite (lx_len_eq _ _ Hb). cbn [set_err pl]. lia.
+      * unfold rem in *. cbn [p1 set_tok relex pl set_err set_buf] in *. rewrite (lx_len_eq _ _ Hb). cbn [set_err set_buf pl]. lia.
       * exact Hs.
       * change (pst p1) with (pst p). rewrite Hs. exact Hok.
-      * intros Hx. cbn [p1 set_tok ptt] in Hx. destruct (Hcom Hx) as (_ & Hlen). cbn [set_err pst] in Hlen. rewrite Hs, len_cons in Hlen.
+      * intros Hx. cbn [p1 set_tok ptt] in Hx. destruct (Hcom Hx) as (_ & Hlen). cbn [set_err set_buf pst] in Hlen. rewrite Hs, len_cons in Hlen.
         destruct rest; [reflexivity|rewrite len_cons in Hlen; pose proof (len_nonneg rest); lia].
       * exists g, p'. split; [exact Hl|].
         apply (next_finish p p1); try reflexivity; try assumption.
-        right. split; [exact Epe|]. specialize (Hlt Et). cbn [set_err pl] in Hlt. exact Hlt.
+        right. split; [exact Epe|]. specialize (Hlt Et). cbn [set_err set_buf pl] in Hlt. exact Hlt.
 Qed.
